@@ -114,3 +114,11 @@ package lfshttp
 //@   requires @inv c != nil && u != nil
 //@   at call (*url.URL).String:1 assert arg0__ == u
 //@   at call (*config.URLConfig).GetAll:1 assert arg1__ == "http" && arg3__ == "extraHeader"
+
+// C10: net/http never follows a redirect on its own - every 3xx answer comes
+// back to DoWithRedirect, whose rules (Authorization only to the same host:port,
+// no https -> http, at most three requests) are the ones proved above.
+//@ func (*Client).HttpClient$1
+//@   props C10
+//@   pure
+//@   ensures result == http.ErrUseLastResponse
